@@ -157,10 +157,6 @@ func (p *ProjectRunner) launchProcess(config *types.ProcessConfig, unlessShuttin
 		withExtraArgs(extraArgs),
 	)
 	if !p.addRunningProcess(process, unlessShuttingDown) {
-		if unlessShuttingDown && p.isShuttingDown.Load() {
-			// never launched: do not leave it Pending for ever
-			process.onProcessEnd(types.ProcessStateCompleted)
-		}
 		return false
 	}
 	p.waitGroup.Add(1)
@@ -351,6 +347,10 @@ func (p *ProjectRunner) addRunningProcess(process *Process, unlessShuttingDown b
 	p.runProcMutex.Lock()
 	defer p.runProcMutex.Unlock()
 	if unlessShuttingDown && p.isShuttingDown.Load() {
+		if _, ok := p.runningProcesses[process.getName()]; !ok {
+			// never launched, and nobody else has started it: do not leave it Pending for ever
+			process.compareAndSetState(types.ProcessStateCompleted, types.ProcessStatePending)
+		}
 		return false
 	}
 	if current, ok := p.runningProcesses[process.getName()]; ok && current != process {
